@@ -380,12 +380,15 @@ class Node(object):
         Decides if priority preemption is needed, finds the individual to preempt, and preempt them.
         """
         if self.priority_preempt != False:
-            least_priority = max(s.cust.priority_class for s in self.servers)
+            in_service = [s.cust for s in self.servers if not s.cust.is_blocked]
+            if len(in_service) == 0:
+                return
+            least_priority = max(cust.priority_class for cust in in_service)
             if individual.priority_class < least_priority:
                 least_prioritised_individuals = [
-                    s.cust
-                    for s in self.servers
-                    if s.cust.priority_class == least_priority
+                    cust
+                    for cust in in_service
+                    if cust.priority_class == least_priority
                 ]
                 individual_to_preempt = max(
                     [ind for ind in least_prioritised_individuals],
